@@ -35,6 +35,13 @@ void harness(void)
      signalling NaN is outside the claim */
   ASSUME(!(((b >> 52) & 0x7ff) == 0x7ff && (b & ((1ull << 52) - 1)) != 0 && !((b >> 51) & 1)));
   for (k = 0; k < 12; k++) buf[k] = 0xAA;
+  /* known finding ieee10_zero (see known_findings.jsonl): +-0.0 in the 80-bit format */
+#ifdef KF_EXCLUDE_ieee10_zero
+  ASSUME((b << 1) != 0);
+#endif
+#ifdef KF_ONLY_ieee10_zero
+  ASSUME((b << 1) == 0);
+#endif
 
 #if defined(IEEE2)
   {
